@@ -7,6 +7,7 @@ import numpy as np
 
 from harness.common import rat, rat_list, parse_rat_lists, MachineryError
 from harness.props import gridlib as G
+from harness.props.c10 import coord_arrays, count_shared
 
 MAXLIVE = 7
 NONMUT = ('new', 'copy', 'scaled', 'shifted', 'reversed', 'rotated', 'protated', 'as', 'pshifted')
@@ -45,7 +46,87 @@ def spec_ndim(spec):
     return len(spec['data'][1]) if spec['kind'] == 'reg' else len(spec['data'])
 
 
+def gen_pyth_spec(rng):
+    """A Cartesian 2-D grid all of whose points have a rational distance from the origin (multiples of
+    Pythagorean pairs, points on the axes, the origin), so that the exact conversion model is defined on
+    every point; any kind of coordinates."""
+    t = float(rng.choice([1.0, 0.5, 2.0, 0.25, 1.5]))
+    a, b, _ = G.PYTH[int(rng.integers(0, len(G.PYTH)))]
+    if rng.random() < 0.5:
+        a, b = b, a
+    kind = str(rng.choice(['uns', 'uns', 'sep', 'reg']))
+    if kind == 'uns':
+        pts = []
+        for _ in range(int(rng.integers(1, 9))):
+            r = rng.random()
+            if r < 0.15:
+                pts.append((0.0, 0.0))
+            elif r < 0.35:
+                v = float(rng.choice([-3.0, -1.0, 0.5, 2.0, 4.0])) * t
+                pts.append((v, 0.0) if rng.random() < 0.5 else (0.0, v))
+            else:
+                aa, bb, _ = G.PYTH[int(rng.integers(0, len(G.PYTH)))]
+                k = float(rng.choice([1.0, 0.5, 2.0, 0.25])) * float(rng.choice([-1.0, 1.0]))
+                sg = float(rng.choice([-1.0, 1.0]))
+                pts.append((aa * k, bb * k * sg) if rng.random() < 0.5 else (bb * k, aa * k * sg))
+        data = [[p[0] for p in pts], [p[1] for p in pts]]
+    elif kind == 'sep':
+        r = rng.random()
+        if r < 0.4:
+            data = [[-a * t, 0.0, a * t][int(rng.integers(0, 2)):], [-b * t, 0.0, b * t][:int(rng.integers(2, 4))]]
+        elif r < 0.7:
+            data = [[float(v) * t for v in rng.integers(-4, 5, size=int(rng.integers(2, 6)))], [0.0]]
+        else:
+            data = [[a * t, -a * t], [b * t, -b * t, 0.0]]
+    else:
+        r = rng.random()
+        if r < 0.5:
+            data = [[a * t, b * t], [3, 3], [-a * t, -b * t]]
+        elif r < 0.75:
+            data = [[-a * t, b * t], [2, 3], [a * t, -b * t]]
+        else:
+            data = [[0.5 * t, 1.0], [int(rng.integers(1, 7)), 1], [float(rng.choice([-1.0, 0.0, 0.25])), 0.0]]
+    w = None if rng.random() < 0.7 else 0.5
+    return {'sys': 'c', 'kind': kind, 'data': data, 'w': w, 'int': False, 'lowbits': False, 'pyth': True}
+
+
 def gen_history(rng, big):
+    if rng.random() < 0.12:
+        return gen_pyth_history(rng, big)
+    return gen_history0(rng, big)
+
+
+def gen_pyth_history(rng, big):
+    """conversion-heavy history on a grid with Pythagorean points: only operations that keep every radius
+    rational (isotropic scale of either sign, reverse, rotation by Pythagorean angles, copies) on the Cartesian
+    grids; the polar grids that `as_` produces take part in every operation"""
+    spec = gen_pyth_spec(rng)
+    ops = [['new', spec]]
+    meta = ['c']
+    for _ in range(int(rng.integers(3, 8 if not big else 11))):
+        i = int(rng.integers(0, len(meta)))
+        if meta[i] == 'c':
+            op = str(rng.choice(['as', 'as', 'as', 'scale', 'scaled', 'reverse', 'reversed', 'rotate', 'rotated', 'copy', 'mat']))
+        else:
+            op = str(rng.choice(['as', 'as', 'scale', 'scaled', 'reverse', 'reversed', 'protate', 'copy']))
+        if len(meta) >= MAXLIVE and op in NONMUT:
+            op = {'scaled': 'scale', 'reversed': 'reverse', 'rotated': 'rotate', 'copy': 'reverse', 'as': 'reverse'}[op]
+        if op in ('scale', 'scaled'):
+            vals = [2.0, 0.5, 1.5, 4.0, 3.0] + ([-2.0, -1.0, -0.5] if meta[i] == 'c' else [])
+            ops.append([op, i, ['s', float(rng.choice(vals)), str(rng.choice(G.SCALAR_FORMS))]])
+        elif op in ('rotate', 'rotated', 'protate'):
+            c, s_ = G.gen_angle(rng)
+            ops.append([op, i, {'c': G.fr(c), 's': G.fr(s_)}])
+        else:
+            ops.append([op, i])
+        if op == 'as':
+            meta.append('p' if meta[i] == 'c' else 'c')
+        elif op in NONMUT:
+            meta.append(meta[i])
+    return {'family': 'history', 'ops': ops, 'pyth': True}
+
+
+def gen_history0(rng, big):
     maxn = 6 if not big else int(rng.choice([6, 12, 30]))
     spec = G.gen_spec(rng, maxn=maxn)
     if spec['sys'] == 'p':
@@ -195,6 +276,90 @@ def observe(grids):
     return out
 
 
+def grid_arrays(g):
+    """the ndarray objects a grid holds and writes to in place: its coordinate arrays, then the stored weights if they are an array"""
+    a = coord_arrays(g)
+    w = g._weights
+    if isinstance(w, np.ndarray) and w.ndim >= 1:
+        a = a + [w]
+    return a
+
+
+def ref_ops(kind, op, ncoord, has_w, snap):
+    """array operations of an in-place scale / shift / polar rotate on a grid (`ncoord` coordinate arrays, a weights array or not)"""
+    reg = snap['kind'] == 'reg'
+    ndim = snap['points'].shape[1]
+    wop = 'k'
+    if kind == 'scale':
+        a = op[2]
+        f = [a[1]] * ndim if a[0] == 's' else list(a[1])
+        jac = abs(float(a[1])) ** ndim if a[0] == 's' else float(np.prod(np.abs(f)))
+        if snap['sys'] == 'p':
+            f = [a[1], 1.0]
+        ops = ['mv:' + rat_list(f)] * 2 if reg else ['ms:' + rat(x) for x in f]
+        wop = 'ms:' + rat(jac)
+    else:
+        if kind == 'shift':
+            b = [op[2][1]] * ndim if op[2][0] == 's' else list(op[2][1])
+        else:
+            b = [0.0, angle_of(op[2])]
+        ops = ['k', 'av:' + rat_list(b)] if reg else ['as:' + rat(x) for x in b]
+    if len(ops) != ncoord:
+        return None
+    return ops + ([wop] if has_w else [])
+
+
+def ref_plan(steps):
+    """`ref …` requests mirroring a history on the reference model (Model/GridHeap.lean), with what to compare after each step"""
+    lines = ['C11 ref reset']
+    checks = []
+    nobj = 0
+    gobj = []
+    prev = []
+    for st in steps:
+        if st['status'] != 'ok':
+            break
+        op, kind = st['op'], st['op'][0]
+        vals = st['refvals']
+        base_kind = {'scaled': 'scale', 'shifted': 'shift', 'protated': 'protate'}.get(kind, kind)
+        ops = None
+        if base_kind in ('scale', 'shift', 'protate'):
+            src = st['before'][op[1]]
+            tgt = vals[-1] if kind in NONMUT else vals[op[1]]
+            if len(tgt) == len(prev[op[1]]):
+                ncoord = 2 if src['kind'] == 'reg' else src['points'].shape[1]
+                ops = ref_ops(base_kind, op, ncoord, len(prev[op[1]]) > ncoord, src)
+        if kind in NONMUT:
+            if kind == 'copy':
+                lines.append('C11 ref copy %d' % gobj[op[1]])
+            elif ops is not None:
+                lines.append('C11 ref copied %d %s' % (gobj[op[1]], ' '.join(ops)))
+            else:
+                lines.append('C11 ref new ' + G.rat_lists(vals[-1]))
+            gobj.append(nobj)
+            nobj += 1
+        elif ops is not None:
+            lines.append('C11 ref inplace %d %s' % (gobj[op[1]], ' '.join(ops)))
+        else:
+            # reverse / rotate / reading .weights / polar shift / an operation that materialises the weights:
+            # the grid's arrays are re-bound to new ones — a fresh object takes its place
+            lines.append('C11 ref new ' + G.rat_lists(vals[op[1]]))
+            gobj[op[1]] = nobj
+            nobj += 1
+        if len(gobj) != len(vals):
+            raise MachineryError('reference model: %d objects for %d live grids' % (len(gobj), len(vals)))
+        shared_at = len(lines)
+        lines.append('C11 ref shared')
+        at = []
+        for k, o in enumerate(gobj):
+            at.append((len(lines), vals[k]))
+            lines.append('C11 ref val %d' % o)
+        checks.append((shared_at, st['shared'], at, op, 'inplace' if (ops is not None and kind not in NONMUT) else
+                       'copied' if ops is not None else 'copy' if kind == 'copy' else 'fresh'))
+        prev = vals
+    return lines, checks
+
+
 def run_history(case):
     grids = []
     steps = []
@@ -204,6 +369,8 @@ def run_history(case):
         status = apply_real(grids, op, pool)
         ch = pool.changed()
         steps.append({'op': op, 'status': status, 'before': before, 'after': observe(grids),
+                      'shared': count_shared([a for g in grids for a in grid_arrays(g)] + list(pool.arrays)),
+                      'refvals': [[[float(v) for v in np.asarray(a).ravel()] for a in grid_arrays(g)] for g in grids],
                       'caller_changed': [(list(pool.keys[k])[:6], pool.arrays[k].tolist()[:6]) for k in ch]})
         if status != 'ok':
             break
@@ -236,6 +403,55 @@ def model_history_lines(case):
         elif kind in FROM_IMPL:
             lines.append('IMPL')
     return lines
+
+
+def conv_query(st):
+    """The model request that runs the executable conversion on the source grid's current value
+    (before the implementation's result enters the store), and the real points it must reproduce."""
+    op = st['op']
+    src = st['before'][op[1]]
+    if src['points'].shape[1] != 2:
+        return None
+    if src['sys'] == 'c':
+        return 'C11 aspolar %d' % op[1]
+    th = src['points'][:, 1]
+    return 'C11 ascart %d %s %s' % (op[1], rat_list([float(v) for v in np.cos(th)]), rat_list([float(v) for v in np.sin(th)]))
+
+
+def compare_conv(ans, st):
+    """None, or a description of the first difference between the executable conversion model and the
+    grid `as_()` returned.  Second value: (points compared exactly defined, points outside the exact model)."""
+    op = st['op']
+    src = st['before'][op[1]]
+    real = st['after'][-1]['points']
+    if not ans.startswith('ok'):
+        return 'model answered %r' % ans, (0, 0)
+    body = ans.split(' ', 1)[1] if ' ' in ans else '-'
+    mp = parse_rat_lists(body)
+    if len(mp) != len(real):
+        return 'number of points %d vs %d' % (len(mp), len(real)), (0, 0)
+    exact = skipped = 0
+    for k, (m, r) in enumerate(zip(mp, real)):
+        if src['sys'] == 'c':
+            if len(m) == 0:
+                skipped += 1
+                continue
+            exact += 1
+            rr, c, s_ = [float(x) for x in m]
+            if abs(r[0] - rr) > G.TOL * max(1.0, rr):
+                return 'point %d: radius %r vs hypot %r' % (k, float(r[0]), rr), (exact, skipped)
+            if rr == 0:
+                continue        # the origin: every angle names the same point (arctan2 of signed zeros gives 0, ±pi)
+            want = math.atan2(s_, c)
+            d = (float(r[1]) - want + math.pi) % (2 * math.pi) - math.pi
+            if abs(d) > G.TOL:
+                return 'point %d: angle %r vs direction (%r, %r)' % (k, float(r[1]), c, s_), (exact, skipped)
+        else:
+            exact += 1
+            scale = max(1.0, float(np.max(np.abs(real))))
+            if abs(r[0] - float(m[0])) > G.TOL * scale or abs(r[1] - float(m[1])) > G.TOL * scale:
+                return 'point %d: (%r, %r) vs r*(cos, sin) = (%r, %r)' % (k, float(r[0]), float(r[1]), float(m[0]), float(m[1])), (exact, skipped)
+    return None, (exact, skipped)
 
 
 def impl_line(st):
@@ -704,6 +920,15 @@ DIRECTED = [
 ]
 
 
+IMAGE_OF = {'scale': 'scale', 'scaled': 'scale', 'shift': 'shift', 'shifted': 'shift', 'reverse': 'reverse', 'reversed': 'reverse',
+            'rotate': 'rotate', 'rotated': 'rotate'}
+
+
+def dis(ctx, stream, detail, key=None):
+    ctx.count('disagree:' + stream)
+    ctx.disagree(stream, detail, key)
+
+
 def run(ctx):
     ctx.rule = ('(a) transformation histories over a store of live grids: a base grid (Cartesian 1-3 D or polar; regular / separated '
                 'incl. ragged, descending, unsorted / unstructured; stored weights none, scalar or per point; in 40 % of the histories '
@@ -727,8 +952,8 @@ def run(ctx):
                         'automatic weights of a separated axis with fewer than two points are undefined (IndexError) — outside the quantifier',
                         'weights under rotation are not part of the statement (rotated() drops them, rotate() keeps the cached value): recorded, not judged',
                         'make_fft_grid float truncation is taken as given when the exact value is within 1e-6 of an integer and fov is inexact (boundary_skipped)']
-    n_hist = ctx.scale(1800, 13000)
-    n_ctor = ctx.scale(1000, 7000)
+    n_hist = ctx.scale(1800, 8500)
+    n_ctor = ctx.scale(1000, 5000)
     cases = list(DIRECTED)
     for k in range(n_hist):
         cases.append(gen_history(ctx.rng, big=(ctx.tier == 'thorough' and k % 4 == 0)))
@@ -736,6 +961,7 @@ def run(ctx):
         cases.append(gen_ctor(ctx.rng, big=(ctx.tier == 'thorough' and k % 4 == 0)))
     all_lines = []
     plan = []
+    ref_plans = []
     for case in cases:
         fam = case['family']
         ctx.count('family:' + fam)
@@ -756,13 +982,25 @@ def run(ctx):
                     nd = st['before'][op[1]]['points'].shape[1]
                     b = [op[2][1]] * nd if op[2][0] == 's' else op[2][1]
                     ml = 'C11 %s %d %s' % (op[0], op[1], rat_list(b))
+                conv = None
                 if ml == 'IMPL':
+                    if op[0] == 'as' and st['status'] == 'ok':
+                        cq = conv_query(st)
+                        if cq is not None:
+                            conv = len(lines)
+                            lines.append(cq)
                     ml = impl_line(st)
+                img = None
+                if op[0] in IMAGE_OF and st['status'] == 'ok' and isinstance(ml, str):
+                    # the right-hand side of the `points_*` theorem for this op, from the value BEFORE it
+                    t = ml.split(' ')
+                    img = len(lines)
+                    lines.append(' '.join(['C11', 'image', t[2], IMAGE_OF[op[0]]] + t[3:]))
                 if isinstance(ml, list):
                     lines += ml
                 else:
                     lines.append(ml)
-                m = {'op': len(lines) - 1, 'impl': op[0] in FROM_IMPL}
+                m = {'op': len(lines) - 1, 'impl': op[0] in FROM_IMPL, 'conv': conv, 'img': img}
                 nlive = len(st['after'])
                 m['show'] = len(lines)
                 lines += ['C11 show %d' % k for k in range(nlive)]
@@ -777,12 +1015,17 @@ def run(ctx):
                     ctx.count('two-grids-from-the-same-arrays')
                 if aliased(base_spec):
                     ctx.count('aliased-constructor-inputs')
+            if case.get('pyth'):
+                ctx.count('histories-pythagorean')
             ctx.count('grid:%s-%s-%dD' % (base_spec['sys'], base_spec['kind'], spec_ndim(base_spec)))
             ctx.count('weights:' + ('none' if base_spec['w'] is None else 'array' if isinstance(base_spec['w'], list) else 'scalar'))
             sig = ('history', tuple(o[0] + G_arg(o) for o in case['ops']), base_spec['sys'], base_spec['kind'], spec_ndim(base_spec))
             ctx.case(case if len(ctx.samples) < 3 else None, nontrivial_key=sig if len(steps) > 1 else None)
             plan.append(('history', case, steps, len(all_lines), marks))
             all_lines += lines
+            rlines, rchecks = ref_plan(steps)
+            ref_plans.append((case, len(all_lines), rchecks))
+            all_lines += rlines
         else:
             bad, lines, checks = check_ctor(case)
             for key, what in bad:
@@ -792,6 +1035,23 @@ def run(ctx):
             plan.append(('ctor', case, checks, len(all_lines), None))
             all_lines += lines
     out = ctx.model(all_lines)
+    for case, rbase, rchecks in ref_plans:
+        for shared_at, real_shared, vals, op, how in rchecks:
+            ctx.traces_validated += 1
+            ctx.count('ref:' + how)
+            ans = out[rbase + shared_at]
+            if ans != 'ok %d' % real_shared:
+                dis(ctx, 'C11 ref shared', {'case': case, 'after': op, 'impl-shared-array-pairs': real_shared, 'model': ans})
+                break
+            bad = None
+            for at, real in vals:
+                ma = parse_rat_lists(out[rbase + at].split(' ', 1)[1]) if out[rbase + at].startswith('ok ') else None
+                if ma is None or len(ma) != len(real) or not all(G.lists_close(a, b) for a, b in zip(ma, real)):
+                    bad = {'case': case, 'after': op, 'impl': [r[:8] for r in real], 'model': out[rbase + at][:200]}
+                    break
+            if bad is not None:
+                dis(ctx, 'C11 ref values', bad)
+                break
     for kind, case, data, base_i, marks in plan:
         if kind == 'history':
             for st, m in zip(data, marks):
@@ -800,8 +1060,28 @@ def run(ctx):
                 ctx.traces_validated += 1
                 if m.get('impl') and st['status'] != 'ok':
                     break
+                if m.get('conv') is not None:
+                    d, (nex, nskip) = compare_conv(out[base_i + m['conv']], st)
+                    ctx.count('as-model:points-compared', nex)
+                    ctx.count('as-model:points-irrational-radius', nskip)
+                    ctx.count('as-model:' + ('c->p' if st['before'][st['op'][1]]['sys'] == 'c' else 'p->c'))
+                    ctx.traces_validated += 1
+                    if d is not None:
+                        dis(ctx, 'C11 as_ model', {'case': case, 'op': st['op'], 'diff': d, 'model': out[base_i + m['conv']][:300]})
+                        break
+                if m.get('img') is not None:
+                    op = st['op']
+                    real = st['after'][-1 if op[0] in NONMUT else op[1]]['points']
+                    ia = out[base_i + m['img']]
+                    mp = parse_rat_lists(ia.split(' ', 1)[1]) if ia.startswith('ok ') else None
+                    ctx.traces_validated += 1
+                    ctx.count('image:' + IMAGE_OF[op[0]])
+                    if mp is None or len(mp) != len(real) or not close_arr(
+                            np.array([[float(x) for x in p] for p in mp], dtype=float).reshape(len(mp), real.shape[1]), real):
+                        dis(ctx, 'C11 image', {'case': case, 'op': op, 'model': ia[:300], 'impl': real.tolist()[:6]})
+                        break
                 if mstatus != st['status']:
-                    ctx.disagree('C11 op status', {'case': case, 'op': st['op'], 'impl': st['status'], 'model': ans})
+                    dis(ctx, 'C11 op status', {'case': case, 'op': st['op'], 'impl': st['status'], 'model': ans})
                     break
                 stop = False
                 for k in range(m['n']):
@@ -814,7 +1094,7 @@ def run(ctx):
                         if not close_arr(mp, real['points']):
                             d = 'points differ'
                     if d is not None:
-                        ctx.disagree('C11 show', {'case': case, 'after': st['op'], 'grid': k, 'diff': d})
+                        dis(ctx, 'C11 show', {'case': case, 'after': st['op'], 'grid': k, 'diff': d})
                         stop = True
                         break
                 if stop:
@@ -828,12 +1108,12 @@ def run(ctx):
                     continue
                 if isinstance(g, tuple):
                     if ans.split(' ')[0:2] != g[1].split(' ')[0:2] and not (ans.startswith('ok') and g[1] == 'ok'):
-                        ctx.disagree('C11 ctor status', {'case': case, 'impl': g[1], 'model': ans})
+                        dis(ctx, 'C11 ctor status', {'case': case, 'impl': g[1], 'model': ans})
                     continue
                 ms = G.parse_show(ans)
                 d = G.compare_show(ms, G.snap(g), G.get_weights(g))
                 if d is not None:
-                    ctx.disagree('C11 ctor', {'case': case, 'diff': d, 'model': ans[:300]})
+                    dis(ctx, 'C11 ctor', {'case': case, 'diff': d, 'model': ans[:300]})
 
 
 def G_arg(op):
